@@ -44,6 +44,7 @@ def demo():
 
 res = {"mutant": md}
 sh("git checkout -q -- yarel yarel-cli")
+sh("git checkout -q --detach %s" % subprocess.run("git -C /repo rev-parse HEAD", shell=True, capture_output=True, text=True).stdout.strip())
 rc, o, e = sh("cargo build --offline -q && cargo build --offline -q --release")
 assert rc == 0, e[-2000:]
 clean = demo()
